@@ -39,6 +39,8 @@ class FuncRun(ExprMixin, InstrMixin, CallMixin):
         self.frame_counter = 0
         self.regs = {}
         self.heap0 = {}
+        self.heap_epochs = {}
+        self.event_counter = 0
         self.abstracted = []
         self.unmodelled = set()
         self.assumed_used = set()
@@ -143,12 +145,40 @@ class FuncRun(ExprMixin, InstrMixin, CallMixin):
 
     # ------------------------------------------------------------ heap
     def heap_get(self, state, name, sort):
+        """current version of a heap component in `state`.  A component that was never touched in this state is the
+        entry version -- unless everything was havoced since (epoch > 0: then it is the version of that event),
+        and with every `*x` wildcard havoc recorded in the state applied to it."""
         a = state.heap.get(name)
-        if a is None:
+        if a is not None:
+            return a
+        ep = state.heap.get('#epoch')
+        epn = ep[1] if ep is not None else 0
+        if epn == 0:
             a = self.heap0.get(name)
             if a is None:
+                if sort is None:
+                    return None
                 a = T.V('H0|' + name, sort)
                 self.heap0[name] = a
+        else:
+            key = (name, epn)
+            a = self.heap_epochs.get(key)
+            if a is None:
+                if sort is None:
+                    base0 = self.heap0.get(name)
+                    sort = T.sort_of(base0) if base0 is not None else None
+                if sort is None:
+                    return None
+                a = T.V('HE%d|%s' % (epn, name), sort)
+                self.heap_epochs[key] = a
+        wild = state.heap.get('#wild')
+        if wild and name.startswith('F|') and a is not None:
+            srt = T.sort_of(a)
+            for ref, ev, ep_at in wild:
+                if ep_at != epn:
+                    continue
+                a = T.store(a, ref, T.V('HW%d|%s' % (ev, name), srt[2]))
+            state.heap[name] = a
         return a
 
     def type_at(self, tn, path):
@@ -261,15 +291,36 @@ class FuncRun(ExprMixin, InstrMixin, CallMixin):
             state.heap[n] = T.fresh('hv|' + n, T.sort_of(cur))
 
     def havoc_all_heap(self, state):
-        """after an unmodelled call: every heap array may have changed; also arrays not yet touched."""
-        self.heap_epoch = getattr(self, 'heap_epoch', 0) + 1
-        for n in list(set(state.heap) | set(self.heap0)):
-            cur = self.heap_get(state, n, None)
+        """after an unmodelled call: every heap component may have changed -- including those not touched yet."""
+        self.event_counter += 1
+        for n in list(state.heap):
+            if n.startswith('#'):
+                continue
             self.record_write(('heap', n))
-            state.heap[n] = T.fresh('hv|' + n, T.sort_of(cur))
-        # arrays first touched later must not alias the entry heap: mark via a state-level epoch
-        state.heap['#epoch'] = T.I(self.heap_epoch)
+            del state.heap[n]
+        state.heap['#epoch'] = T.I(self.event_counter)
+        state.heap.pop('#wild', None)
         self.record_write(('heapall', None))
+
+    def havoc_at_ref(self, state, ref):
+        """`modifies *x` with x of unknown dynamic type: every struct field component may change at that reference."""
+        self.event_counter += 1
+        ev = self.event_counter
+        ep = state.heap.get('#epoch')
+        epn = ep[1] if ep is not None else 0
+        for n in list(state.heap):
+            if n.startswith('F|'):
+                a = state.heap[n]
+                self.record_write(('heap', n), ref)
+                state.heap[n] = T.store(a, ref, T.V('HW%d|%s' % (ev, n), T.sort_of(a)[2]))
+        for n in list(self.heap0):
+            if n.startswith('F|') and n not in state.heap:
+                a = self.heap_get(state, n, None)
+                if a is not None:
+                    self.record_write(('heap', n), ref)
+                    state.heap[n] = T.store(a, ref, T.V('HW%d|%s' % (ev, n), T.sort_of(a)[2]))
+        state.heap['#wild'] = tuple(state.heap.get('#wild', ())) + ((ref, ev, epn),)
+        self.record_write(('wild', None))
 
     # maps
     def map_names(self, tn):
@@ -360,9 +411,39 @@ class FuncRun(ExprMixin, InstrMixin, CallMixin):
         hkeys = set()
         for s in states:
             hkeys.update(s.heap)
+        eps = [s.heap.get('#epoch', T.ZERO) for s in states]
+        wilds = [tuple(s.heap.get('#wild', ())) for s in states]
+        if any(e != eps[0] for e in eps) or any(w != wilds[0] for w in wilds):
+            # different havoc histories: materialise every component seen anywhere in each state
+            allnames = set(self.heap0) | set(k_ for s in states for k_ in s.heap if not k_.startswith('#')) | set(n for (n, e) in self.heap_epochs)
+            for s in states:
+                for n in allnames:
+                    if n not in s.heap:
+                        v = self.heap_get(s, n, None)
+                        if v is not None:
+                            s.heap[n] = v
+            if any(e != eps[0] for e in eps):
+                # components nobody touched yet: unknown from here on
+                self.event_counter += 1
+                out.heap['#epoch'] = T.I(self.event_counter)
+            else:
+                if eps[0] != T.ZERO:
+                    out.heap['#epoch'] = eps[0]
+                # same epoch, different wildcard havocs: applying all of them over-approximates every branch
+                uw = []
+                for w in wilds:
+                    for e_ in w:
+                        if e_ not in uw:
+                            uw.append(e_)
+                out.heap['#wild'] = tuple(uw)
+            hkeys = set(k_ for s in states for k_ in s.heap)
+        else:
+            if eps[0] != T.ZERO:
+                out.heap['#epoch'] = eps[0]
+            if wilds[0]:
+                out.heap['#wild'] = wilds[0]
         for k in hkeys:
-            if k == '#epoch':
-                out.heap[k] = states[0].heap.get(k, T.ZERO)
+            if k.startswith('#'):
                 continue
             vals = []
             for s in states:
@@ -396,6 +477,15 @@ class FuncRun(ExprMixin, InstrMixin, CallMixin):
             eqs = []
             map_leaves(lambda a, b: (eqs.append(T.eq(a, b)), a)[1], res, v)
             self.hyps.append(T.implies(s.pc, T.and_(*eqs)))
+        if is_term(res):
+            # an interface value that is the same concrete type on every non-nil path keeps its static type
+            stat = set()
+            for _, v in vals:
+                if v == T.ZERO:
+                    continue
+                stat.add(self.iface_static[v][0] if v in self.iface_static else None)
+            if len(stat) == 1 and None not in stat:
+                self.iface_static[res] = (stat.pop(), self.uf_pay(res))
         return res
 
     # ------------------------------------------------------------ running a CFG
